@@ -484,7 +484,10 @@ func c16(r *ev.Run) {
 	r.Assume("bounded-progress restatement: calls must return within 6 s (else two stack dumps decide deadlock vs inconclusive); after the last call a stream must be up and carry exactly the dependency set within 8 s (reconnect delay is 1 s +- 20 %)")
 	runAPIPart(r, "client", false, nil, 20*time.Minute)
 	runAPIPart(r, "client-race", true, []string{"config/discovery.go"}, 20*time.Minute)
+	runAPIPart(r, "grpc", false, nil, 20*time.Minute)
 	r.Require("histories_with_more_than_16_changes_while_down", 5)
 	r.Require("histories_with_slow_server", 5)
 	r.Require("histories_with_change_during_resubscribe", 5)
+	r.Require("grpc_settled_judgements", 8)
+	r.Require("grpc_requests_with_subscribe_and_unsubscribe_together", 3)
 }
